@@ -111,12 +111,6 @@ ASSUMPTIONS = [
     "anonymous groups is reset by the harness before each construction so "
     "that the generated source (and its JIT cache key) is the same for "
     "every case",
-    "Interpolator(...), set_interpolation_points and set_domain raise "
-    "ValueError (numpy reduction over nothing) when a source array has no "
-    "real particle; update() and update_particle_arrays() accept such "
-    "arrays.  Reported by the coverage audit; the first three are not "
-    "generated while such an array is present (label "
-    "excluded:points_with_empty_array)",
     "update_particle_arrays receives the arrays in the order of "
     "construction (the compiled code addresses the neighbour structure by "
     "position; a permuted list silently gives NaN and is not generated)",
@@ -136,7 +130,7 @@ ESSENTIAL_LABELS = {'all': [
     'g_missing_on_first_array', 'g_on_no_array', 'empty_source_array',
     'op:resize', 'resize:removed', 'resize:added', 'resize:no_real_left',
     'list_targets', 'targets_3d_shape', 'ev:t_dt_passed', 'ev:t_dt_default', 'ev:nnps_factory',
-    'ev:backend_given', 'excluded:points_with_empty_array']}
+    'ev:backend_given', 'points_with_empty_array']}
 SHARD_TIMEOUT = {'quick': 1500, 'thorough': 8 * 3600}
 
 METHODS = ['shepard', 'sph', 'order1', 'splash', 'splash_norm']
@@ -433,11 +427,11 @@ def case_strategy(draw, method, kernel, narr, mode='interpolator',
                 per[a] = 1
         periodic = dict(lo=[0.0] * 3, hi=[L] * 3, per=per)
     grid = draw(st.integers(0, 3)) == 0 and not ev
-    # Interpolator(...) itself cannot be built over an array without real
-    # particles (see `excluded:` labels); SPHEvaluator can
+    # an automatic grid needs an extent; otherwise one of several source
+    # arrays may be without real particles from the start
     arrays = draw(arrays_strategy(narr, dim, L, rs, periodic is not None,
                                   anchored=grid, ftype=ftype, gowner=gowner,
-                                  allow_empty=ev))
+                                  allow_empty=ev or not grid))
     if grid:
         init = dict(kind='grid', num_points=draw(st.integers(5, 60)))
     else:
@@ -456,11 +450,7 @@ def case_strategy(draw, method, kernel, narr, mode='interpolator',
             k = 'arrays'
         if not ev and k in ('points', 'domain') and \
                 not _all_have_real(cur):
-            # Interpolator.set_interpolation_points raises ValueError when a
-            # source array has no real particle (reported by the coverage
-            # audit; excluded by construction and counted)
-            excluded.append('points_with_empty_array')
-            k = 'data'
+            excluded.append('_points_with_empty_array')
         if k == 'points':
             ops.append(dict(op='points', targets=draw(points_strategy(
                 cur, dim, L, periodic is not None, ev))))
@@ -1084,7 +1074,8 @@ class Run(object):
         elif go < 0:
             self.labels.add('g_on_no_array')
         for e in case.get('excluded', []):
-            self.labels.add('excluded:' + e)
+            self.labels.add(e[1:] if e.startswith('_') else
+                            'excluded:' + e)
         if any(a['n'] == 0 for a in case['arrays']):
             self.labels.add('empty_source_array')
         if case.get('default_kernel'):
